@@ -96,4 +96,5 @@ def install(w: Any) -> None:
             # the memo must know what every live circuit computes for the versions being saved
             world.check_memo(world.alive())
 
+    hook.always = True  # type: ignore[attr-defined]  # bookkeeping only: never evaluates before a save
     w.hooks.append(hook)
